@@ -17,7 +17,7 @@ A scheduler (`Choice`) picks which coroutine runs its next atomic block, lets vi
 lets the body change the registry.  Cancellation is CPython's: cancelling a task that has not
 started finishes it without running its body; cancelling a suspended task raises `CancelledError`
 at that await; awaiting a cancelled task raises `CancelledError` in the awaiter unless suppressed.
-Which `except`/`suppress` clauses exist is read from the generated tables (`Gen.excPersistStart`,
+Which `except`/`suppress` clauses exist is read from the generated tables (`Gen.excPersistStartSleep`, `Gen.excPersistStartAwait`,
 `Gen.excPersistSave`), so the theorems depend on what the code says.
 
 Time: file operations take no virtual time and a due timer fires before time moves on (a runnable
@@ -36,12 +36,12 @@ open AioMySensors
 def interval : Nat := Gen.saveInterval.toNat
 
 /-- Is `CancelledError`, raised at the saver's `asyncio.sleep`, caught by its `except` clause
-(first clause of `Persistence.start`)? -/
-def sleepCatchesCancel : Bool := pyCaught .CancelledError (clause Gen.excPersistStart 0)
+(the clauses the extractor found AROUND that await in `Persistence.start`)? -/
+def sleepCatchesCancel : Bool := pyCaught .CancelledError Gen.excPersistStartSleep
 
 /-- Is `CancelledError`, raised by `await task` in `cancel_save`, suppressed
-(second clause of `Persistence.start`: `contextlib.suppress(...)`)? -/
-def awaitSuppressesCancel : Bool := pyCaught .CancelledError (clause Gen.excPersistStart 1)
+(the `contextlib.suppress(...)` / `except` clauses the extractor found AROUND that await)? -/
+def awaitSuppressesCancel : Bool := pyCaught .CancelledError Gen.excPersistStartAwait
 
 /-- Would `save`'s `except OSError` turn a `CancelledError` into a `PersistenceWriteError`? -/
 def saveCatchesCancel : Bool := pyCaught .CancelledError (clause Gen.excPersistSave 0)
